@@ -40,7 +40,9 @@ def units(tier, seed):
         dev = sum(names[k] not in ("default", "ub-finite") for k in ("bounds", "K", "baseline"))
         if tier == "quick" and dev > (2 if names["A"] == "asc" else 1):
             continue
-        for var in ("default", "explicit", "uncertainty"):
+        for var in ("default", "explicit", "uncertainty", "uncertainty-draws"):
+            if var == "uncertainty-draws" and (tier == "quick" and dev > 0):
+                continue  # filter uncertainty given as draws of the filter functions: default options in the quick tier
             out.append(dict(names=names, spec=B.spec_of(A, lb, ub, K, bl), variance=var, tier=tier))
     return out
 
@@ -79,7 +81,7 @@ def run_unit(unit, rec):
     Eps_arg = None
     rec.trans(2)
     try:
-        if var == "uncertainty":
+        if var in ("uncertainty", "uncertainty-draws"):
             # a NON-uniform wavelength axis: the trapezoid weight of interior sample i is (x[i+1] - x[i-1]) / 2; the filters are
             # divided by the weights so that the capture matrix is still exactly A
             steps = np.array([1.0, 0.5, 2.0, 1.5, 0.25, 3.0, 1.0, 0.75, 2.5, 1.25])[: n + 1]
@@ -89,7 +91,13 @@ def run_unit(unit, rec):
             filters[:, 1:-1] = filters[:, 1:-1] / wts_u
             sig_f = np.zeros_like(filters)
             sig_f[:, 1:-1] = 0.125 * (1 + (np.arange(m)[:, None] + np.arange(n)[None, :]) % 3)  # std of each filter sample
-            est = dreye.ReceptorEstimator(filters, domain=dom_u, filters_uncertainty=sig_f, **kw)
+            if var == "uncertainty-draws":
+                # 6 draws of the filter functions around the mean (3-D uncertainty): the variance model is the variance of the draws' captures
+                zt = np.array([1.5, -1.0, 0.25, -0.75, 1.0, -1.0])
+                draws = filters[None] + sig_f[None] * (zt[:, None, None] * (1.0 + 0.5 * ((np.arange(m)[None, :, None] + np.arange(n + 2)[None, None, :]) % 2)))
+                est = dreye.ReceptorEstimator(filters, domain=dom_u, filters_uncertainty=draws, **kw)
+            else:
+                est = dreye.ReceptorEstimator(filters, domain=dom_u, filters_uncertainty=sig_f, **kw)
         else:
             est = dreye.ReceptorEstimator(filters, domain=1.0, **kw)
         est.register_system(sources, lb=B.arr(spec["lb"]), ub=B.arr(spec["ub"]))
@@ -103,8 +111,12 @@ def run_unit(unit, rec):
         Eps_arg = 0.0625 * (1.0 + ((np.arange(m)[:, None] * 2 + np.arange(n)[None, :] * 3) % 5))
         Eps_model = own_K2(Eps_arg, K, m)
     else:
-        # trapezoid integral of sigma^2 * source^2 over the registered domain = sigma^2 x the trapezoid weight of the source's grid point
-        Eps_model = own_K2(sig_f[:, 1:-1] ** 2 * wts_u[None, :], K, m)
+        if var == "uncertainty-draws":
+            # capture of source k by draw j of filter i = draw[j, i, k] x trapezoid weight: the variance over the draws carries the weight squared
+            Eps_model = own_K2(np.var(draws[:, :, 1:-1], axis=0) * wts_u[None, :] ** 2, K, m)
+        else:
+            # trapezoid integral of sigma^2 * source^2 over the registered domain = sigma^2 x the trapezoid weight of the source's grid point
+            Eps_model = own_K2(sig_f[:, 1:-1] ** 2 * wts_u[None, :], K, m)
         if np.max(np.abs(np.asarray(est.A, dtype=float) - A)) > 1e-12 * (1 + np.max(np.abs(A))):
             _v(rec, "a", dict(base, L1="-", what="capture-matrix"), "the capture matrix registered on the non-uniform domain is not the trapezoid integral of filters x sources", dict(step="build"))
             return
@@ -130,7 +142,7 @@ def run_unit(unit, rec):
     first_default = None
     # per-sample receptor weights registered with the targets (not those given to the constructor): strongly non-uniform, different per row
     Wreg = np.array([np.roll(np.array([3.0, 0.4, 1.5, 0.6, 2.0][:m]), k) for k in range(len(T))])
-    for L1name, L1 in (("none", None), ("per-sample", adm), ("scalar", float(adm[0])), ("per-sample/batch2", adm), ("none/registered-weights", None)):
+    for L1name, L1 in (("none", None), ("per-sample", adm), ("scalar", float(adm[0])), ("per-sample/batch2", adm), ("none/registered-weights", None), ("none/batch3", None)):
         P = P_all if L1name != "scalar" else P_all[:1]
         T_run = T if L1name != "scalar" else T[:1]
         sig = dict(base, L1=L1name)
@@ -142,6 +154,10 @@ def run_unit(unit, rec):
             kwargs["Epsilon"] = Eps_arg
         if L1 is not None:
             kwargs["L1"] = L1
+        if L1name.endswith("batch3"):
+            # five targets in batches of three: the last batch holds two real samples and one padded sample
+            kwargs["batch_size"] = 3
+            kwargs["solver"] = "CLARABEL"
         if L1name.endswith("batch2"):
             kwargs["batch_size"] = 2
             # accurate first stage: with the default first-order solver the attainable error of the padded batch is only
